@@ -136,6 +136,9 @@ package grpc
 //@   assert at call Read#1 Z(arg0) == Z(p.header[1])*16777216 + Z(p.header[2])*65536 + Z(p.header[3])*256 + Z(p.header[4])
 //@   assert at call Read#1 0 <= arg0 && arg0 <= maxReceiveMessageSize
 //@   assert at call Errorf#2 arg0 == codes.ResourceExhausted && Z(length) > Z(maxReceiveMessageSize)
+//@   requires io.EOF != nil && io.ErrUnexpectedEOF != nil && io.EOF != io.ErrUnexpectedEOF
+//@   assert at return 4 result2 != nil && result2 != io.EOF && ncalls("Read") == 1
+//@   assert at return 5 result2 == nil && result0 == pf && sameslice(result1, data) && ncalls("Read") == 1
 
 //@ func msgHeader
 //@   prop C06 C27
